@@ -14,9 +14,9 @@ WORKERS = int(os.environ.get("VERIF_WORKERS", "16"))
 
 # (batches, runs per batch) at the default budget
 PLAN = {
-    "C12": {"quick": (112, 20), "thorough": (1600, 30)},
-    "C06": {"quick": (448, 12), "thorough": (9600, 16)},
-    "C08": {"quick": (320, 10), "thorough": (8000, 14)},
+    "C12": {"quick": (112, 20), "thorough": (1200, 30)},
+    "C06": {"quick": (448, 12), "thorough": (3600, 16)},
+    "C08": {"quick": (320, 10), "thorough": (3200, 14)},
 }
 DEFAULT_BUDGET = {"quick": 90.0, "thorough": 1500.0}
 
